@@ -3,7 +3,12 @@
 Implementation under test (public API only): make_wsgi_app, make_asgi_app, MetricsHandler, driven in-process:
 the WSGI callable with a hand-made environ, the ASGI coroutine with hand-written receive/send, MetricsHandler
 through a fake socket (and over a loop-back HTTPServer for the cases marked `loop`).
-Model: coq/model/Http.v (extracted), with str.lower / parse_qs / urlparse(..).query answered by CPython.
+Model: coq/model/Http.v (extracted), with str.lower / parse_qs / urlparse(..).query answered by CPython; the
+restriction to the name[] values is coq/model/HttpReg.v over the registry model of C06/C07 (coq/model/Registry.v):
+the model is given the fixture registries as (describe(), collect()) per collector in registration order and
+returns the families behind each body.
+Reference body of the direct oracle: the exposition of the FILTER of the full collection (every family of
+registry.collect() at most once, cut down to the requested sample names) - computed without restricted_registry.
 """
 import gzip
 import hashlib
@@ -15,7 +20,7 @@ import threading
 import time
 
 from .modelproc import Model, ModelError
-from .sx import d_bool, d_int, d_str, some
+from .sx import Sym, d_bool, d_int, d_str, some
 
 RULE = ('requests = (Accept field lines, Accept-Encoding field lines, unrelated headers, query string, method, path, '
         'ASGI header-name case): (1) exhaustive sequences of up to 4 pieces over {exact token, near-miss tokens, ",", ";", '
@@ -34,8 +39,11 @@ TRUSTED = ['PARTIAL by design: wsgiref, http.server + email.parser (request line
            'Section hypothesis lower_gzip: lower s = "gzip" <-> s is g|G z|Z i|I p|P: validated on every run (per code point '
            'over all 0x110000 code points: chr(c).lower() consists of characters of "gzip" only for those eight; '
            'exhaustively on all strings of length <= 4 over 14 adversarial characters incl. U+0130, U+0131, U+212A, U+0307, final sigma)',
-           'the two exposition encoders and restricted_registry (C03-C07) are used as the reference body: C17 is about which '
-           'encoder / restriction / compression is applied, not about the encoders']
+           'the two exposition encoders (C03-C05) are used to render the reference body: the families of the full '
+           'registry.collect(), filtered by the harness itself to the requested sample names (restricted_registry is NOT '
+           'used by the reference), and the families returned by the model',
+           'the fixture collectors are well described (describe() covers every sample name they yield) and do not change '
+           'between scrapes: the model is handed their describe() / collect() results once']
 ASSUMPTIONS = ['header values and query strings are compared at the level of the decoded str each front-end hands to the '
                'library (WSGI: the environ str; ASGI: utf-8; MetricsHandler: what http.client.parse_headers returns for the '
                'latin-1 wire bytes, computed by the harness with the same runtime)',
@@ -43,7 +51,10 @@ ASSUMPTIONS = ['header values and query strings are compared at the level of the
                'per-code-point validation of lower_gzip to all strings',
                'Accept tokens that equal the OpenMetrics media type only case-insensitively are outside the compared '
                'domain (the statement does not say whether they count as listing it): consistency checks only',
-               'GET /favicon.ico on the WSGI app (an empty 200 by design) is outside the agreement statement']
+               'GET /favicon.ico on the WSGI app (an empty 200 by design) is outside the agreement statement',
+               'family order: exact (registration order) without a name[] value; with name[] values the families are '
+               'compared as a multiset of blocks (RestrictedRegistry iterates over a set of collectors), the lines inside a '
+               'family block in order']
 TIME_BUDGET = {'quick': 100, 'thorough': 900}
 
 OM = 'application/openmetrics-text'
@@ -72,30 +83,52 @@ ORACLE.update(c17_lower=_o_lower, c17_parse_qs=_o_parse_qs, c17_urlquery=_o_urlq
 
 # ------------------------------------------------------------------------------------------------ fixture
 _FX = None
+NREG = 2
 
 
 class _Fixture:
     pass
 
 
+class _Multi:
+    """A well-described custom collector owning several families (hence many names)."""
+
+    def __init__(self, prefix):
+        self.prefix = prefix
+
+    def _families(self, with_values):
+        from prometheus_client.core import (CounterMetricFamily, GaugeHistogramMetricFamily, GaugeMetricFamily,
+                                            HistogramMetricFamily, SummaryMetricFamily)
+        p = self.prefix
+        g = GaugeMetricFamily(p + '_a', 'multi gauge', labels=['k'])
+        c = CounterMetricFamily(p + '_b', 'multi counter')
+        h = HistogramMetricFamily(p + '_h', 'multi histogram')
+        sm = SummaryMetricFamily(p + '_s', 'multi summary')
+        gh = GaugeHistogramMetricFamily(p + '_g', 'multi gauge histogram')
+        if with_values:
+            g.add_metric(['x'], 1)
+            g.add_metric(['y'], 2)
+            c.add_metric([], 5, created=1.5e9)
+            h.add_metric([], [('1', 1), ('+Inf', 3)], 7.5)
+            sm.add_metric([], 4, 9.25)
+            gh.add_metric([], [('1', 2), ('+Inf', 3)], 6)
+        return [g, c, h, sm, gh]
+
+    def describe(self):
+        return self._families(False)
+
+    def collect(self):
+        return self._families(True)
+
+
 def fixture():
     global _FX
     if _FX is not None:
         return _FX
-    from prometheus_client import (CollectorRegistry, Counter, Gauge, Histogram, MetricsHandler, Summary,
+    from prometheus_client import (CollectorRegistry, Counter, Enum, Gauge, Histogram, Info, MetricsHandler, Summary,
                                    make_asgi_app, make_wsgi_app)
     from prometheus_client.core import GaugeMetricFamily
     fx = _Fixture()
-    reg = CollectorRegistry()
-    c = Counter('req', 'Requests', ['code'], registry=reg)
-    c.labels('200').inc(3)
-    c.labels('500').inc()
-    Gauge('temp', 'Temperature', registry=reg).set(21.5)
-    h = Histogram('lat', 'Latency', registry=reg, buckets=(0.1, 1))
-    h.observe(0.05)
-    h.observe(2)
-    Summary('sz', 'Size', registry=reg).observe(10)
-    Gauge('euro_\u20ac', 'non-ASCII name', registry=reg).set(1)
 
     class Counting:
         calls = 0
@@ -106,49 +139,185 @@ def fixture():
         def collect(self):
             Counting.calls += 1
             yield GaugeMetricFamily('cc_metric', 'counting collector', value=7)
-    reg.register(Counting())
+
+    # ---- registry 0: no target info
+    reg = CollectorRegistry()
+    cs = []
+    c = Counter('req', 'Requests', ['code'], registry=reg)
+    c.labels('200').inc(3)
+    c.labels('500').inc()
+    cs.append(c)
+    g = Gauge('temp', 'Temperature', registry=reg)
+    g.set(21.5)
+    cs.append(g)
+    h = Histogram('lat', 'Latency', registry=reg, buckets=(0.1, 1))
+    h.observe(0.05)
+    h.observe(2)
+    cs.append(h)
+    sm = Summary('sz', 'Size', registry=reg)
+    sm.observe(10)
+    cs.append(sm)
+    g = Gauge('euro_\u20ac', 'non-ASCII name', registry=reg)
+    g.set(1)
+    cs.append(g)
+    cnt = Counting()
+    reg.register(cnt)
+    cs.append(cnt)
+    i = Info('build', 'Build', registry=reg)
+    i.info({'version': '1.2', 'rev': 'abc'})
+    cs.append(i)
+    e = Enum('state', 'State', states=['up', 'down'], registry=reg)
+    e.state('down')
+    cs.append(e)
+    g = Gauge('size', 'Size with unit', unit='bytes', registry=reg)
+    g.set(4096)
+    cs.append(g)
+    mu = _Multi('mf')
+    reg.register(mu)
+    cs.append(mu)
+    # ---- registry 1: target info configured, another multi-family collector, names overlapping registry 0
+    ti = {'env': 'c17', 'zone': 'a b'}
+    reg1 = CollectorRegistry(target_info=ti)
+    cs1 = []
+    c = Counter('jobs', 'Jobs', registry=reg1)
+    c.inc(2)
+    cs1.append(c)
+    mu = _Multi('q')
+    reg1.register(mu)
+    cs1.append(mu)
+    sm = Summary('sz', 'Size', ['unit'], registry=reg1)
+    sm.labels('kb').observe(3)
+    sm.labels('mb').observe(5)
+    cs1.append(sm)
+    fx.registries = [reg, reg1]
+    fx.collectors = [cs, cs1]
+    fx.target_info = [None, ti]
     fx.registry = reg
     fx.counting = Counting
-    fx.wsgi = {False: make_wsgi_app(reg), True: make_wsgi_app(reg, disable_compression=True)}
-    fx.asgi = {False: make_asgi_app(reg), True: make_asgi_app(reg, disable_compression=True)}
-    fx.handler = MetricsHandler.factory(reg)
+    fx.wsgi = {(k, d): make_wsgi_app(r, disable_compression=d) for k, r in enumerate(fx.registries) for d in (False, True)}
+    fx.asgi = {(k, d): make_asgi_app(r, disable_compression=d) for k, r in enumerate(fx.registries) for d in (False, True)}
+    fx.handler = [MetricsHandler.factory(r) for r in fx.registries]
     fx.refs = {}
-    fx.server = None
-    fx.wserver = None
+    fx.full = {}
+    fx.mrefs = {}
+    fx.mdesc = {}
+    fx.server = [None] * NREG
+    fx.wserver = [None] * NREG
     fx.loop = None
     _FX = fx
     return fx
 
 
-def canon_body(b):
-    """Order-insensitive form of an exposition (the iteration order of a restricted registry is a set order)."""
-    return sorted(b.split(b'\n'))
+def case_reg(case):
+    return case.get('reg', 0)
 
 
-def ref_body(fmt, names):
-    """The library's own exposition of the (restricted) registry in the given format."""
+class _Fixed:
+    """Something the encoders accept in place of a registry: a fixed list of families."""
+
+    def __init__(self, fams):
+        self.fams = fams
+
+    def collect(self):
+        return self.fams
+
+
+def encode(fmt, fams):
+    from prometheus_client import generate_latest
+    from prometheus_client.openmetrics.exposition import generate_latest as om_latest
+    return (om_latest if fmt == 'om' else generate_latest)(_Fixed(fams))
+
+
+def blocks(b):
+    """Exposition bytes -> list of family blocks (a block starts at a '# HELP ' line; '# EOF' is a block of its own).
+    Lines keep their terminator, so b''.join(blocks(b)) == b."""
+    pieces = b.split(b'\n')
+    lines = [x + b'\n' for x in pieces[:-1]] + ([pieces[-1]] if pieces[-1] else [])
+    out, cur = [], []
+    for line in lines:
+        if (line.startswith(b'# HELP ') or line.rstrip(b'\n') == b'# EOF') and cur:
+            out.append(b''.join(cur))
+            cur = []
+        cur.append(line)
+    if cur:
+        out.append(b''.join(cur))
+    return out
+
+
+def canon_body(b, restricted):
+    """Family blocks; as a multiset when restricted (the iteration order of a restricted registry is a set order),
+    in order otherwise.  The lines inside a block keep their order."""
+    bl = blocks(b)
+    return sorted(bl) if restricted else bl
+
+
+def full_collection(reg):
     fx = fixture()
-    key = (fmt, None if names is None else tuple(names))
+    if reg not in fx.full:
+        fx.full[reg] = list(fx.registries[reg].collect())
+    return fx.full[reg]
+
+
+def filter_families(fams, names):
+    """The FILTER the property speaks of: each family at most once, in place, with exactly the samples whose name is
+    requested; families left without a sample disappear.  Independent of restricted_registry / _restricted_metric."""
+    from prometheus_client.metrics_core import Metric
+    if names is None:
+        return list(fams)
+    wanted = set(names)
+    out = []
+    for f in fams:
+        ss = [smp for smp in f.samples if smp.name in wanted]
+        if ss:
+            m = Metric(f.name, f.documentation, f.type, f.unit)
+            m.samples = ss
+            out.append(m)
+    return out
+
+
+def ref_body(fmt, names, reg=0):
+    """Canonical exposition, in the given format, of the full collection filtered to `names` (None: unrestricted)."""
+    fx = fixture()
+    key = (reg, fmt, None if names is None else tuple(sorted(set(names))))
     if key not in fx.refs:
-        from prometheus_client import generate_latest
-        from prometheus_client.openmetrics.exposition import generate_latest as om_latest
-        if len(fx.refs) > 4000:
+        if len(fx.refs) > 20000:
             fx.refs.clear()
-        r = fx.registry if names is None else fx.registry.restricted_registry(list(names))
-        fx.refs[key] = canon_body((om_latest if fmt == 'om' else generate_latest)(r))
+        fx.refs[key] = canon_body(encode(fmt, filter_families(full_collection(reg), names)), names is not None)
     return fx.refs[key]
 
 
-def body_token(raw, names):
-    """empty | text | om (= the reference exposition for `names`) | other:<digest>"""
-    cb = canon_body(raw)
-    if cb == ref_body('text', names):
+def describe_difference(raw, names, reg):
+    """Human-readable difference between a served body and the reference of its own format."""
+    import collections
+    fmt = 'om' if raw.endswith(b'# EOF\n') else 'text'
+    got = collections.Counter(blocks(raw))
+    want = collections.Counter(ref_body(fmt, names, reg))
+    head = lambda blk: blk.split(b'\n')[0].decode('utf-8', 'replace')
+    parts = []
+    for blk, n in sorted(got.items()):
+        w = want.get(blk, 0)
+        if w and n > w:
+            parts.append('family block %r served %d times, expected %d' % (head(blk), n, w))
+        elif not w:
+            parts.append('unexpected block %r (%d lines)' % (head(blk), blk.count(b'\n')))
+    for blk, n in sorted(want.items()):
+        if blk not in got:
+            parts.append('missing block %r (%d lines)' % (head(blk), blk.count(b'\n')))
+    if not parts and blocks(raw) != ref_body(fmt, names, reg):
+        parts.append('families out of registration order')
+    return '%s exposition; ' % fmt + '; '.join(parts[:4])
+
+
+def body_token(raw, names, reg=0):
+    """empty | text | om (= the reference exposition for `names`) | other:<digest>:<difference>"""
+    cb = canon_body(raw, names is not None)
+    if cb == ref_body('text', names, reg):
         return 'text'
-    if cb == ref_body('om', names):
+    if cb == ref_body('om', names, reg):
         return 'om'
     if raw == b'':
         return 'empty'
-    return 'other:' + hashlib.sha1(raw).hexdigest()[:10] + ':' + raw[:60].decode('latin-1')
+    return 'other:' + hashlib.sha1(raw).hexdigest()[:10] + ':' + describe_difference(raw, names, reg)
 
 
 def query_names(query):
@@ -157,7 +326,7 @@ def query_names(query):
 
 
 # ------------------------------------------------------------------------------------------------ the three drivers
-def fe_obs(method, path, status, headers, body, names, calls_before):
+def fe_obs(method, path, status, headers, body, names, calls_before, reg=0):
     """Canonical observation of one response.  headers: list of (name, value) str pairs; status: int."""
     fx = fixture()
     hd = {}
@@ -176,7 +345,7 @@ def fe_obs(method, path, status, headers, body, names, calls_before):
             plain = b'<<not gunzippable>>' + body[:20]
     if path == '/favicon.ico':
         return ['favicon', status, 'empty' if body == b'' else 'nonempty']
-    return [status, hd.get('content-type'), hd.get('content-encoding'), gz, body_token(plain, names),
+    return [status, hd.get('content-type'), hd.get('content-encoding'), gz, body_token(plain, names, reg),
             plain.endswith(b'# EOF\n')]
 
 
@@ -205,7 +374,7 @@ def drive_wsgi(case, disable, names):
         return lambda b: None
     before = fx.counting.calls
     try:
-        chunks = fx.wsgi[disable](wsgi_environ(case), start_response)
+        chunks = fx.wsgi[(case_reg(case), disable)](wsgi_environ(case), start_response)
         body = b''.join(chunks)
     except Exception as e:
         return ['raised', type(e).__name__]
@@ -216,7 +385,7 @@ def drive_wsgi(case, disable, names):
         code = int(status.split(' ')[0])
     except ValueError:
         return ['protocol', 'status %r' % (status,)]
-    return fe_obs(case['method'], case['path'], code, headers, body, names, before)
+    return fe_obs(case['method'], case['path'], code, headers, body, names, before, case_reg(case))
 
 
 def asgi_scope(case):
@@ -254,7 +423,7 @@ def drive_asgi(case, disable, names):
     if fx.loop is None:
         fx.loop = asyncio.new_event_loop()
     try:
-        fx.loop.run_until_complete(fx.asgi[disable](asgi_scope(case), receive, send))
+        fx.loop.run_until_complete(fx.asgi[(case_reg(case), disable)](asgi_scope(case), receive, send))
     except Exception as e:
         return ['raised', type(e).__name__]
     if len(sent) != 2 or sent[0].get('type') != 'http.response.start' or sent[1].get('type') != 'http.response.body':
@@ -263,7 +432,7 @@ def drive_asgi(case, disable, names):
         headers = [(k.decode('latin-1'), v.decode('latin-1')) for k, v in sent[0]['headers']]
     except Exception as e:
         return ['protocol', 'headers: ' + type(e).__name__]
-    return fe_obs('GET', '', sent[0]['status'], headers, sent[1].get('body', b''), names, 0)
+    return fe_obs('GET', '', sent[0]['status'], headers, sent[1].get('body', b''), names, 0, case_reg(case))
 
 
 class _FakeSock:
@@ -347,27 +516,27 @@ def parse_http_response(data):
     return int(m.group(1)), headers, body
 
 
-def drive_handler_fake(wire, names):
+def drive_handler_fake(wire, names, reg=0):
     fx = fixture()
     sock = _FakeSock(wire['req'])
     try:
-        fx.handler(sock, ('127.0.0.1', 1), None)
+        fx.handler[reg](sock, ('127.0.0.1', 1), None)
     except Exception as e:
         return ['raised', type(e).__name__]
     r = parse_http_response(bytes(sock.out))
     if r is None:
         return ['protocol', bytes(sock.out[:80]).decode('latin-1')]
-    return fe_obs('GET', '', r[0], r[1], r[2], names, 0)
+    return fe_obs('GET', '', r[0], r[1], r[2], names, 0, reg)
 
 
-def drive_handler_loop(wire, names):
+def drive_handler_loop(wire, names, reg=0):
     from http.server import HTTPServer
     fx = fixture()
-    if fx.server is None:
-        fx.server = HTTPServer(('127.0.0.1', 0), fx.handler)
-        t = threading.Thread(target=fx.server.serve_forever, kwargs=dict(poll_interval=0.05), daemon=True)
+    if fx.server[reg] is None:
+        fx.server[reg] = HTTPServer(('127.0.0.1', 0), fx.handler[reg])
+        t = threading.Thread(target=fx.server[reg].serve_forever, kwargs=dict(poll_interval=0.05), daemon=True)
         t.start()
-    s = socket.create_connection(('127.0.0.1', fx.server.server_port), timeout=10)
+    s = socket.create_connection(('127.0.0.1', fx.server[reg].server_port), timeout=10)
     try:
         s.sendall(wire['req'])
         data = b''
@@ -381,20 +550,20 @@ def drive_handler_loop(wire, names):
     r = parse_http_response(data)
     if r is None:
         return ['protocol', data[:80].decode('latin-1')]
-    return fe_obs('GET', '', r[0], r[1], r[2], names, 0)
+    return fe_obs('GET', '', r[0], r[1], r[2], names, 0, reg)
 
 
-def drive_wsgi_loop(wire, names):
+def drive_wsgi_loop(wire, names, reg=0):
     """The WSGI app behind wsgiref's own server (compression enabled): validates the hand-made environ."""
     from wsgiref.simple_server import WSGIRequestHandler, WSGIServer, make_server
     fx = fixture()
-    if fx.wserver is None:
+    if fx.wserver[reg] is None:
         class Silent(WSGIRequestHandler):
             def log_message(self, format, *args):
                 pass
-        fx.wserver = make_server('127.0.0.1', 0, fx.wsgi[False], WSGIServer, handler_class=Silent)
-        threading.Thread(target=fx.wserver.serve_forever, kwargs=dict(poll_interval=0.05), daemon=True).start()
-    s = socket.create_connection(('127.0.0.1', fx.wserver.server_port), timeout=10)
+        fx.wserver[reg] = make_server('127.0.0.1', 0, fx.wsgi[(reg, False)], WSGIServer, handler_class=Silent)
+        threading.Thread(target=fx.wserver[reg].serve_forever, kwargs=dict(poll_interval=0.05), daemon=True).start()
+    s = socket.create_connection(('127.0.0.1', fx.wserver[reg].server_port), timeout=10)
     try:
         s.sendall(wire['req'])
         data = b''
@@ -408,18 +577,18 @@ def drive_wsgi_loop(wire, names):
     r = parse_http_response(data)
     if r is None:
         return ['protocol', data[:80].decode('latin-1')]
-    return fe_obs('GET', '', r[0], r[1], r[2], names, 0)
+    return fe_obs('GET', '', r[0], r[1], r[2], names, 0, reg)
 
 
 def shutdown():
     fx = _FX
     if fx is not None:
         for attr in ('server', 'wserver'):
-            srv = getattr(fx, attr)
-            if srv is not None:
-                srv.shutdown()
-                srv.server_close()
-                setattr(fx, attr, None)
+            for k, srv in enumerate(getattr(fx, attr)):
+                if srv is not None:
+                    srv.shutdown()
+                    srv.server_close()
+                    getattr(fx, attr)[k] = None
         if fx.loop is not None:
             fx.loop.close()
             fx.loop = None
@@ -459,13 +628,13 @@ def impl(case):
             cmp_['a%d' % dis] = drive_asgi(case, dis, names)
         wire = handler_wire(case)
         if wire is not None:
-            cmp_['h'] = drive_handler_fake(wire, names)
+            cmp_['h'] = drive_handler_fake(wire, names, case_reg(case))
             aux['h_equiv'] = wire['equiv']
             aux['w_equiv'] = wire['wequiv']
             if case.get('loop'):
-                aux['h_loop'] = drive_handler_loop(wire, names)
+                aux['h_loop'] = drive_handler_loop(wire, names, case_reg(case))
                 if case['path'] != '/favicon.ico':
-                    aux['w_loop'] = drive_wsgi_loop(wire, names)
+                    aux['w_loop'] = drive_wsgi_loop(wire, names, case_reg(case))
     return {'cmp': cmp_, 'aux': aux}
 
 
@@ -473,8 +642,66 @@ def _d_headers(a):
     return [(d_str(k), d_str(v)) for k, v in a]
 
 
-def _d_body(a, names_seen):
-    """symbolic body of the model -> (gz flag, body token) using the library's encoders as the reference"""
+TOK0 = 1000      # sample tokens handed to the model: TOK0 + index into the table of real Sample objects
+
+
+def model_registry(m, reg):
+    """Describe fixture registry `reg` to the model (once per driver process): per collector, in registration order,
+    its describe() and collect() results; the model registers them itself (Registry.register).  -> Sample table."""
+    fx = fixture()
+    if reg not in fx.mdesc:
+        table, colls = [], []
+        for c in fx.collectors[reg]:
+            desc = [[f.name, Sym(f.type)] for f in c.describe()]
+            fams = []
+            for f in c.collect():
+                ss = []
+                for smp in f.samples:
+                    ss.append([smp.name, [[k, v] for k, v in smp.labels.items()], TOK0 + len(table)])
+                    table.append(smp)
+                fams.append([f.name, Sym(f.type), f.documentation, f.unit, ss])
+            colls.append([some(desc), fams])
+        fx.mdesc[reg] = (colls, table)
+    colls, table = fx.mdesc[reg]
+    defined = m.__dict__.setdefault('_c17_regs', set())
+    if reg not in defined:
+        ti = fx.target_info[reg] or {}
+        r = m.call('c17_reg_define', reg, False, [[k, v] for k, v in ti.items()], colls)
+        assert len(r[0]) == len(colls), 'the model did not register every fixture collector: %r' % (r[0],)
+        defined.add(reg)
+    return table
+
+
+def model_body(m, reg, fmt, names):
+    """Canonical exposition of the families the MODEL hands to the encoder for these name[] values."""
+    from prometheus_client.metrics_core import Metric
+    from prometheus_client.samples import Sample
+    fx = fixture()
+    key = (reg, fmt, None if names is None else tuple(names))
+    if key in fx.mrefs:
+        return fx.mrefs[key]
+    table = model_registry(m, reg)
+    r = m.call('c17_collected', reg, None if names is None else some(list(names)))
+    fams = []
+    for f in r:
+        mt = Metric(d_str(f[0]), d_str(f[2]), str(f[1]), d_str(f[3]))
+        for smp in f[4]:
+            tok = d_int(smp[2])
+            labels = {d_str(k): d_str(v) for k, v in smp[1]}
+            if tok >= TOK0:
+                mt.samples.append(table[tok - TOK0]._replace(name=d_str(smp[0]), labels=labels))
+            else:       # the target info sample the registry model makes up itself (value 1)
+                mt.samples.append(Sample(d_str(smp[0]), labels, 1))
+        fams.append(mt)
+    if len(fx.mrefs) > 20000:
+        fx.mrefs.clear()
+    fx.mrefs[key] = canon_body(encode(fmt, fams), names is not None)
+    return fx.mrefs[key]
+
+
+def _d_body(m, a, names_seen, reg):
+    """symbolic body of the model -> (gz flag, body token): the token is the format when the exposition of the model's
+    families (Registry.restricted run on the fixture registry) is the reference body for the names the harness saw"""
     if a[0] == 'empty':
         return False, 'empty', False
     if a[0] == 'lit':
@@ -482,15 +709,15 @@ def _d_body(a, names_seen):
     fmt = a[1]
     names = None if a[2] == 'N' else [d_str(x) for x in a[2][1]]
     gz = d_bool(a[3])
-    tok = fmt if ref_body(fmt, names) == ref_body(fmt, names_seen) else 'model-restriction-differs:%r' % (names,)
+    tok = fmt if model_body(m, reg, fmt, names) == ref_body(fmt, names_seen, reg) else 'model-restriction-differs:%r' % (names,)
     return gz, tok, fmt == 'om'
 
 
-def _m_obs(method, path, code, headers, body, names, collects):
+def _m_obs(m, reg, method, path, code, headers, body, names, collects):
     hd = {}
     for k, v in headers:
         hd.setdefault(k.lower(), v)
-    gz, tok, eof = _d_body(body, names)
+    gz, tok, eof = _d_body(m, body, names, reg)
     if method == 'OPTIONS':
         return ['options', 200 <= code < 300, 'allow' in hd]
     if method != 'GET':
@@ -502,6 +729,7 @@ def _m_obs(method, path, code, headers, body, names, collects):
 
 def model(m, case):
     names = query_names(case['query'])
+    reg = case_reg(case)
     cmp_ = {}
     env = [(k, v) for k, v in wsgi_environ(case).items() if isinstance(v, str)]
     for dis in (False, True):
@@ -511,8 +739,8 @@ def model(m, case):
             continue
         status, headers, body = r[1]
         status = d_str(status)
-        cmp_['w%d' % dis] = _m_obs(case['method'], case['path'], int(status.split(' ')[0]), _d_headers(headers), body,
-                                   names, body[0] == 'expo')
+        cmp_['w%d' % dis] = _m_obs(m, reg, case['method'], case['path'], int(status.split(' ')[0]), _d_headers(headers),
+                                   body, names, body[0] == 'expo')
     if case['method'] == 'GET' and not case.get('light'):
         hs = asgi_headers_decoded(case)
         for dis in (False, True):
@@ -520,11 +748,11 @@ def model(m, case):
             if len(msgs) != 2:
                 cmp_['a%d' % dis] = ['protocol', len(msgs)]
                 continue
-            cmp_['a%d' % dis] = _m_obs('GET', '', d_int(msgs[0][1]), _d_headers(msgs[0][2]), msgs[1][1], names, True)
+            cmp_['a%d' % dis] = _m_obs(m, reg, 'GET', '', d_int(msgs[0][1]), _d_headers(msgs[0][2]), msgs[1][1], names, True)
         wire = handler_wire(case)
         if wire is not None:
             code, headers, body = m.call('c17_handler', False, wire['accepts'], wire['aencs'], wire['path'])
-            cmp_['h'] = _m_obs('GET', '', d_int(code), _d_headers(headers), body, names, True)
+            cmp_['h'] = _m_obs(m, reg, 'GET', '', d_int(code), _d_headers(headers), body, names, True)
     return {'cmp': cmp_}
 
 
@@ -631,6 +859,29 @@ def nontrivial(case, obs):
     return bool(obs['aux']['names']) or (isinstance(w0, list) and len(w0) == 6 and (w0[3] or w0[4] == 'om'))
 
 
+def name_classes(names, reg):
+    """How the name[] values relate to the collectors of the fixture registry (measured input distribution)."""
+    if not names:
+        return []
+    out = ['registry:%d' % reg]
+    owners = {}
+    for n in set(names):
+        for gi, g in enumerate(GROUPS[reg]):
+            if n in g:
+                owners.setdefault(gi, set()).add(n)
+    most = max([len(v) for v in owners.values()] or [0])
+    out.append('names_of_one_collector:%s' % (most if most < 4 else '4+'))
+    if len(owners) > 1:
+        out.append('names_of_several_collectors')
+    if len(set(names)) < len(names):
+        out.append('name_value_repeated')
+    if any(all(n not in g for g in GROUPS[reg]) for n in names):
+        out.append('unknown_name')
+    if names != sorted(names):
+        out.append('names_not_sorted')
+    return out
+
+
 def classify(case, obs):
     out = ['method:' + (case['method'] if case['method'] in ('GET', 'OPTIONS') else 'other')]
     c = obs['cmp']
@@ -639,6 +890,7 @@ def classify(case, obs):
         out.append('fmt:%s' % w0[4])
         out.append('gzip:%s' % w0[3])
         out.append('restricted' if obs['aux']['names'] else 'unrestricted')
+        out += name_classes(obs['aux']['names'], case_reg(case))
     out.append('light' if case.get('light') else 'full')
     if 'h' in c:
         out.append('handler_driven')
@@ -658,9 +910,11 @@ def classify(case, obs):
 
 
 # ------------------------------------------------------------------------------------------------ generators
-def mk(accept=(), aenc=(), query=None, method='GET', path='/metrics', extra=(), ncase=0, light=False, loop=False):
+def mk(accept=(), aenc=(), query=None, method='GET', path='/metrics', extra=(), ncase=0, light=False, loop=False, reg=0):
     c = dict(accept=list(accept), aenc=list(aenc), query=query, method=method, path=path,
              extra=[list(x) for x in extra], ncase=ncase)
+    if reg:
+        c['reg'] = reg
     if light:
         c['light'] = True
     if loop:
@@ -694,6 +948,58 @@ QPIECES = ['name[]=temp', 'name[]=req_total', 'name[]=req_created', 'name%5B%5D=
            'name[]=%', 'name[]=%zz', 'name[]=temp;name[]=req_total', 'name[]=temp%26name[]=lat_sum', 'name[0]=temp',
            'name[]=temp=1', '=temp', 'name[]=TEMP', 'name[]=temp%20', 'name[]=+temp', 'a=b=c', 'name%5B]=lat_sum',
            'name[]=req', 'name[]=temperature', 'name[]=tem', 'xname[]=temp', 'name[]x=temp', 'name%5B%5D=', 'name[]=target_info']
+# the names each fixture collector owns (registry -> collector -> names); the sample names come first, then names that
+# are claimed but never exposed (family names of counters / histograms / summaries, x_created of a custom counter ...)
+def _multi_names(p):
+    return [p + '_a', p + '_b_total', p + '_b_created', p + '_h_bucket', p + '_h_count', p + '_h_sum', p + '_s_count', p + '_s_sum',
+            p + '_g_bucket', p + '_g_gcount', p + '_g_gsum', p + '_b', p + '_h', p + '_s', p + '_g', p + '_h_created']
+
+
+GROUPS = {
+    0: [['req_total', 'req_created', 'req'], ['temp'], ['lat_bucket', 'lat_count', 'lat_sum', 'lat_created', 'lat'],
+        ['sz_count', 'sz_sum', 'sz_created', 'sz'], ['euro_\u20ac'], ['cc_metric'], ['build_info', 'build'], ['state'],
+        ['size_bytes'], _multi_names('mf')],
+    1: [['jobs_total', 'jobs_created', 'jobs'], _multi_names('q'), ['sz_count', 'sz_sum', 'sz_created', 'sz'], ['target_info']],
+}
+UNKNOWN_NAMES = ['no_such', 'target', 'target_info', 'req_', 'lat_bucket_', 'LAT_SUM', 'sz_sum ', 'mf', 'q', 'x', 'temp']
+OTHER_PARAMS = ['x=1', 'name=temp', 'names[]=lat_sum', 'name[]x=lat_count', 'name[0]=sz_sum', 'Name[]=req_total', 'a=b=c', '']
+
+
+def q_piece(rng, value, plain=False):
+    """One name[]=value query piece, key and value percent-encoded in different ways."""
+    from urllib.parse import quote
+    if plain:
+        return 'name[]=' + quote(value, safe='')
+    key = rng.choice(['name[]', 'name[]', 'name%5B%5D', 'name%5b%5d', 'name[%5D', '%6Eame[]'])
+    v = quote(value, safe='')
+    if rng.random() < 0.2 and v:
+        i = rng.randrange(len(value))
+        v = quote(value[:i], safe='') + ''.join('%%%02X' % b for b in value[i].encode('utf8')) + quote(value[i + 1:], safe='')
+    return key + '=' + v
+
+
+def rnd_names(rng, reg):
+    """name[] values drawn collector by collector: several names of ONE collector, repeats, other collectors, unknowns."""
+    groups = GROUPS[reg]
+    vals = []
+    for g in rng.sample(groups, rng.choice([1, 1, 1, 2, 2, 3])):
+        k = rng.choice([1, 2, 2, 2, 3, 3, 4])
+        vals += [rng.choice(g) for _ in range(k)] if rng.random() < 0.5 else rng.sample(g, min(k, len(g)))
+    if rng.random() < 0.3:
+        vals.append(rng.choice(UNKNOWN_NAMES))
+    if rng.random() < 0.25:
+        vals.append(rng.choice(vals))       # a repeated identical value
+    rng.shuffle(vals)
+    return vals
+
+
+def rnd_name_query(rng, reg):
+    pieces = [q_piece(rng, v) for v in rnd_names(rng, reg)]
+    for _ in range(rng.choice([0, 0, 0, 1, 2])):
+        pieces.insert(rng.randrange(len(pieces) + 1), rng.choice(OTHER_PARAMS))
+    return '&'.join(pieces)
+
+
 METHODS = ['GET', 'OPTIONS', 'HEAD', 'POST', 'PUT', 'DELETE', 'PATCH', 'TRACE', 'CONNECT', 'get', 'options', 'Get', 'GETX',
            'XGET', '', 'PROPFIND', 'GET ', 'OPTION', 'OPTIONSX']
 PATHS = ['/metrics', '/metrics', '/', '/foo/bar', '/favicon.ico', '/favicon.ico/', '/metrics/favicon.ico', '/FAVICON.ICO']
@@ -793,6 +1099,32 @@ def cases(ctx):
     for a in QPIECES[:14]:
         for b in QPIECES[:14]:
             yield mk([], ['gzip'] if len(a) % 2 else [], a + '&' + b)
+    # --- several name[] values owned by ONE collector: all ordered pairs (incl. the same value twice) within every
+    #     collector of both registries, each whole group forwards and backwards, in both formats
+    k = 0
+    for reg in range(NREG):
+        for g in GROUPS[reg]:
+            lists = [[a, b] for a in g for b in g] + [list(g), list(reversed(g)), list(g) + list(g)]
+            if len(g) > 2:
+                lists += [[a, b, c] for a in g[:4] for b in g[:4] for c in g[:4] if len({a, b, c}) == 3]
+            for vals in lists:
+                k += 1
+                om = k % 2 == 0
+                if len(g) > 8 and len(vals) == 2 and k % 3 and not ctx.thorough:
+                    continue        # the multi-family collector has 256 pairs: every third one in the quick tier
+                yield mk([OM] if om else ['text/plain'], ['gzip'] if k % 5 == 0 else [],
+                         '&'.join(q_piece(rng, v, plain=(k % 4 != 0)) for v in vals), reg=reg, loop=(k % 97 == 0))
+    # ... mixed with names of other collectors and unknown names
+    for reg in range(NREG):
+        for g in GROUPS[reg]:
+            for other in GROUPS[reg]:
+                if other is g:
+                    continue
+                vals = [g[0], other[0], g[-1], 'no_such', g[min(1, len(g) - 1)], other[-1]]
+                yield mk([OM + ';q=0.5', 'text/plain'], [], '&'.join(q_piece(rng, v, plain=True) for v in vals), reg=reg)
+    for reg in range(NREG):
+        yield mk([], [], None, reg=reg, loop=True)
+        yield mk([PROMETHEUS_ACCEPT], ['gzip'], '&'.join(q_piece(rng, v, plain=True) for g in GROUPS[reg] for v in g), reg=reg, loop=True)
     # --- exhaustive: sequences of up to 4 pieces
     gp = ['gzip', 'GZip', 'x', ',', ';', ' ', '\t', '\xa0', 'x-gzip']
     op = [OM, OM + '-foo', 'x', ',', ';', ' ', '\t', '\xa0', OM[:-1]]
@@ -813,9 +1145,11 @@ def cases(ctx):
         method = 'GET' if r < 0.9 else rng.choice(METHODS)
         path = rng.choice(PATHS) if rng.random() < 0.15 else '/metrics'
         extra = rng.sample(EXTRA, rng.choice([0, 0, 1, 2]))
-        yield mk(rnd_lines(rng, rnd_accept_value, exotic), rnd_lines(rng, rnd_aenc_value, exotic), rnd_query(rng),
+        reg = 1 if rng.random() < 0.2 else 0
+        query = rnd_name_query(rng, reg) if rng.random() < 0.35 else rnd_query(rng)
+        yield mk(rnd_lines(rng, rnd_accept_value, exotic), rnd_lines(rng, rnd_aenc_value, exotic), query,
                  method=method, path=path, extra=extra, ncase=rng.choice([0, 0, 0, 1, 2]),
-                 loop=(i % (25 if ctx.thorough else 80) == 0))
+                 loop=(i % (25 if ctx.thorough else 80) == 0), reg=reg)
 
 
 def neighbours(case):
